@@ -492,7 +492,7 @@ def run_seed(seed, ctx):
                 "replay": {"scenario": msc, "tape": mtv, "events_sha": t.event_digest(),
                            "minimize_runs": nruns}})
     res["events_sha"] = hashlib.sha1("".join(shas).encode()).hexdigest()
-    if seed % 5 == 0:
+    if seed % 5 == 0 or ctx.get("want_sample"):
         res["sample"] = {"seed": seed, "spec_params": params, "exact_front": [list(x) for x in exact[1]][:5],
                          "exact_rows": n_rows,
                          "runs": [{kk: c[kk] for kk in ("W", "order_mode", "cache_mode", "fault")}
